@@ -23,11 +23,11 @@ from tradingenv.exchange import Exchange
 PROPERTY = "C06"
 
 
-def _mk(c, cash, rate, markup, with_margin):
+def _mk(c, cash, rate, markup, with_margin, half_spread=0.0):
     ex = Exchange()
     quote(ex, Cash(), 1.0, 1.0)
     fee = BrokerFees(markup=markup)
-    quote(ex, fee.interest_rate, rate, rate)
+    quote(ex, fee.interest_rate, rate - half_spread, rate + half_spread)
     br = Broker(exchange=ex, deposit=cash, fees=fee)
     if with_margin:
         leg = with_margin
@@ -76,14 +76,19 @@ def harness(c, cfg):
     if cfg.get("margin"):
         leg = Leg(c, "F", "margined", "held")
     scen = cfg["scenario"]
+    hs = 0.0
+    if cfg.get("two_sided"):
+        # the rate contract quoted two-sided: the reference rate is the mid of the quote
+        hs = c.real("rate_half_spread", 0, 0.05)
+        c.assume(rate + hs < 0.25)
 
     if scen == "split":
         # one piece [t0,t2] versus two pieces [t0,t1],[t1,t2]
-        _, b1, _ = _mk(c, cash, rate, markup, leg)
+        _, b1, _ = _mk(c, cash, rate, markup, leg, hs)
         b1.accrued_interest(t0, True)
         i02 = b1.accrued_interest(t2, True)
         one = b1._holdings_quantity[b1.base_currency]
-        _, b2, _ = _mk(c, cash, rate, markup, leg)
+        _, b2, _ = _mk(c, cash, rate, markup, leg, hs)
         b2.accrued_interest(t0, True)
         i01 = b2.accrued_interest(t1, True)
         mid = b2._holdings_quantity[b2.base_currency]
@@ -179,6 +184,8 @@ def configs(tier):
         add(scenario="split", sign=sign)
         add(scenario="query", sign=sign)
     add(scenario="rebalance", sign="pos")
+    add(scenario="split", sign="pos", two_sided=True)
+    add(scenario="split", sign="neg", two_sided=True)
     add(scenario="split", sign="pos", margin=True)
     add(scenario="split", sign="neg", margin=True)
     if tier == "thorough":
@@ -195,7 +202,8 @@ ASSUMPTIONS = [
     "(1+r)**years is an uninterpreted function applied at finitely many points per path, constrained by "
     "instantiated axioms: positivity, b^0=1, 1^x=1, b^1=b, sign of b^x-1, monotonicity in x, congruence, and "
     "b^x*b^y=b^(x+y); any counterexample is replayed with the real ** on floats",
-    "reference rate in [-0.5, 0.25), markup in [0, 1], 1 + rate - markup > 0, |cash| <= 1e9",
+    "reference rate in [-0.5, 0.25), markup in [0, 1], 1 + rate - markup > 0, |cash| <= 1e9; when the rate contract is "
+    "quoted two-sided (bid < ask, 'two_sided' configurations) the reference rate is the mid of the quote",
     "accrual instants are real-valued microsecond counts with 2000-01-01 <= t0 <= t1 <= t2 < 2100-01-01 "
     "(interval lengths from 0 to a century); the accrual clock has been started by a first accrual at t0 "
     "(the first call on a fresh broker only sets the clock: pinned by the repository's own test)",
